@@ -598,7 +598,10 @@ def jobs_for(pid, tier):
         "C19": both("fmt", ["fmt", "cursor"]) + core + setcore + pairs("alg", ["algebra"], "set", qcaps[:2] if q else tcaps[:6])
                + ([J("fmt-n3", ["fmt"], consts={"Caps": [3], "Vers": [0], "Vals": [0]}), J("setfmt-n3", ["fmt"], mode="set", consts={"Caps": [3], "Vers": [0]})] if q else []),
         "C08": pairs("alg", ["algebra"], "set", qcaps if q else tcaps) + tset + tbigset,
-        "C14": tbigset + pairs("eqset", ["eq"], "set", qcaps if q else tcaps) + pairs("eqmap", ["eq"], "map", qcaps[:2] if q else tcaps[:9]),
+        "C14": tbigset
+               + [dict(tag="eq4-%s" % md, spec="pair", family=["eq"], mode=md,
+                       consts={"CapA": 4, "CapB": 4, "Classes": [0, 1, 2, 3, 4], "Vals": ([0] if md == "set" or q else [0, 1])}) for md in ("set", "map")]
+               + pairs("eqset", ["eq"], "set", qcaps if q else tcaps) + pairs("eqmap", ["eq"], "map", qcaps[:2] if q else tcaps[:9]),
         "C15": shaped(both("clone", ["clone"])) + both("setclone", ["clone"], mode="set"),
         "C20": both("serde", ["serde"]) + both("setserde", ["serde"], mode="set"),
         "C06": prof(shaped(core), *([] if q else ["stdfeat"])) + both("cursor", ["cursor"]) + both("efdc", ["entry", "fmt", "disjoint", "clone", "unchecked"], consts={"Vers": [0]})
